@@ -3,6 +3,9 @@
 package lossy
 
 import (
+	"sync/atomic"
+	"unsafe"
+
 	"github.com/maypok86/otter/v2/internal/generated/node"
 )
 
@@ -32,4 +35,50 @@ func (s *Striped[K, V]) VerifStripes() (length, rings int) {
 		}
 	}
 	return bs.len, rings
+}
+
+// VerifHookedNode is a regular node whose AsPointer — the last thing a producer evaluates before its entry (or the new ring
+// holding it) becomes visible — first runs Hook once: the harness places another goroutine's action exactly there.
+type VerifHookedNode[K comparable, V any] struct {
+	node.Node[K, V]
+	Hook func()
+}
+
+func (h *VerifHookedNode[K, V]) AsPointer() unsafe.Pointer {
+	if f := h.Hook; f != nil {
+		h.Hook = nil
+		f()
+	}
+	return h.Node.AsPointer()
+}
+
+// VerifGrow does what a contended producer does in expandOrRetry when it decides to expand: if (and only if) the busy flag is
+// free it doubles the table (up to maxLen), carrying the attached rings over.
+func (s *Striped[K, V]) VerifGrow() bool {
+	bs := s.striped.Load()
+	if bs == nil || bs.len >= s.maxLen {
+		return false
+	}
+	if s.busy.Load() != 0 || !s.busy.CompareAndSwap(0, 1) {
+		return false
+	}
+	grown := false
+	if s.striped.Load() == bs {
+		length := bs.len << 1
+		ns := &striped[K, V]{buffers: make([]atomic.Pointer[ring[K, V]], length), len: length}
+		for j := 0; j < bs.len; j++ {
+			ns.buffers[j].Store(bs.buffers[j].Load())
+		}
+		s.striped.Store(ns)
+		grown = true
+	}
+	s.busy.Store(0)
+	return grown
+}
+
+// VerifSteerToken makes the next Add of this goroutine (very likely) start at stripe index idx.
+func VerifSteerToken(idx uint32) {
+	for tokenPool.Get() != nil { //nolint:revive // emptying the pool
+	}
+	tokenPool.Put(&token{idx: idx})
 }
